@@ -663,9 +663,17 @@ Section ENGINE.
     | O => []
     | S n' =>
       let rest := sem_buckets k c dur m es (i + 1) n' in
+      match k with
+      | KLra LAbsent =>          (* absent_over_time: 1 for every bucket of a seen series that holds no entry *)
+        match filter (fun e => bucket_of c dur e =? i) es with
+        | [] => {| e_ts := c_from c + i * dur; e_fp := fpf m; e_lbl := Some m; e_msg := EmptyString; e_val := v1; e_err := ENone |} :: rest
+        | _ :: _ => rest
+        end
+      | _ =>
       match sem_bucket_value k dur (filter (fun e => bucket_of c dur e =? i) es) with
       | Some v => {| e_ts := c_from c + i * dur; e_fp := fpf m; e_lbl := Some m; e_msg := EmptyString; e_val := v; e_err := ENone |} :: rest
       | None => rest
+      end
       end
     end.
   (* number of buckets that can hold an entry of [From, To): ceil((To-From)/dur) *)
@@ -751,7 +759,8 @@ Section ENGINE.
   Definition stage_in_domain (c : ctx) (l : list entry) (s : stage) : bool :=
     match s with
     | SAgg k dur =>
-      (0 <? dur) && (c_from c <? c_to c) && (Z.rem (c_to c - c_from c) dur =? 0) && agg_specified k &&
+      (0 <? dur) && (c_from c <? c_to c) && (Z.rem (c_to c - c_from c) dur =? 0) &&
+      (agg_specified k || match k with KLra LAbsent => true | _ => false end) &&
       forallb (fun e => (c_from c <=? e_ts e) && (e_ts e <? c_to c)) l
     | _ => true
     end.
@@ -864,6 +873,37 @@ End FCASE.
 Definition mismatches (cs : list fcase) : list Z := map f_id (filter f_mismatch cs).
 Definition spec_violations (cs : list fcase) : list (Z * Z) :=
   filter (fun p => negb (snd p =? 0)) (map (fun c => (f_id c, f_spec_code c)) cs).
+
+(* ============================================================================================ *)
+(* reader/logql/logql_transpiler_v2/planner.go: GetBreakpoint / breakScript — where a pipeline is split between ClickHouse
+   and the in-process engine                                                                                            *)
+Inductive pipe := PLineFilter | PLabelFilter | PJson | PJsonParams | PLogfmt | PRegexp | PLineFormat | PLabelFormat | PUnwrap | PDrop.
+Definition breaking (p : pipe) : bool := match p with PJson | PLogfmt | PLineFormat => true | _ => false end.
+Fixpoint first_break (ps : list pipe) (i : Z) : Z :=
+  match ps with
+  | [] => -1
+  | p :: r => if breaking p then i else first_break r (i + 1)
+  end.
+(* BreakpointNo = -1, BreakpointLra = -2 (absent_over_time over a pipeline ClickHouse can run entirely) *)
+Definition get_breakpoint (absent : bool) (ps : list pipe) : Z :=
+  let b := first_break ps 0 in if absent && (b <? 0) then -2 else b.
+(* the pipeline stages handed to the in-process engine (breakScript): those from the breakpoint on; none for -1; for -2
+   the whole pipeline stays in ClickHouse and only the range aggregation runs in process                             *)
+Definition internal_pipes (absent : bool) (ps : list pipe) : list pipe :=
+  let b := get_breakpoint absent ps in if b <? 0 then [] else skipn (Z.to_nat b) ps.
+Definition clickhouse_pipes (absent : bool) (ps : list pipe) : list pipe :=
+  let b := get_breakpoint absent ps in if b <? 0 then ps else firstn (Z.to_nat b) ps.
+Definition pipe_eqb (a b : pipe) : bool :=
+  match a, b with
+  | PLineFilter, PLineFilter | PLabelFilter, PLabelFilter | PJson, PJson | PJsonParams, PJsonParams | PLogfmt, PLogfmt
+  | PRegexp, PRegexp | PLineFormat, PLineFormat | PLabelFormat, PLabelFormat | PUnwrap, PUnwrap | PDrop, PDrop => true
+  | _, _ => false
+  end.
+Record plancase := { q_id : Z; q_absent : bool; q_pipes : list pipe; q_bp : Z; q_internal : list pipe }.
+Definition plan_mismatch (c : plancase) : bool :=
+  negb ((get_breakpoint (q_absent c) (q_pipes c) =? q_bp c) &&
+        list_eqb pipe_eqb (internal_pipes (q_absent c) (q_pipes c)) (q_internal c)).
+Definition plan_mismatches (cs : list plancase) : list Z := map q_id (filter plan_mismatch cs).
 
 (* hash.go structure cases: CH64 of every k+v and of the descriptor bytes as a table *)
 Record fpcase := { p_id : Z; p_labels : lbls; p_ch : list (string * N); p_out : N }.
